@@ -4,7 +4,7 @@ cd "$(dirname "$0")/.."
 export CARGO_NET_OFFLINE=true
 python3 translator/rs2lean.py /repo lean/BumpProof/Gen || echo "setup: translator failed (checks will report it)"
 [ -f translator/sigs2lean.py ] && (python3 translator/sigs2lean.py /repo lean/BumpProof/Gen || echo "setup: sigs2lean failed")
-(cd lean && lake build driver) || echo "setup: driver build failed (checks will report it)"
+(cd lean && lake build driver-pure driver-arena driver-coll driver-strs driver-pool) || echo "setup: driver build failed (checks will report it)"
 # property modules: each is rebuilt (no-op when cached) by its own check; warm the cache here
 for f in lean/BumpProof/Props/C*.lean; do
   m=$(basename "$f" .lean)
